@@ -6,7 +6,7 @@ CONSTANTS
   Bodies <- BodiesQ
   SigLists <- ListsQ
   Replicas = {1, 2}
-  MaxTx = 3
+  MaxTx = 2
   MaxBlocks = 2
   DedupSigners = TRUE
   DirectOpen = FALSE
